@@ -293,11 +293,11 @@ CONDITIONS = [
          bounds="quick: 5 application scripts (1-2 pushes, flush at any position, push after flush), each task failing or not; one pre-emption at a SYMBOLIC step "
                 "index (0..70, partitioned by the solver over the steps actually taken) to any of the 3 threads; thorough: 6 scripts (up to 3 pushes), tasks slow by 0-2 steps, "
                 "symbolic picks at forced switches"),
-    dict(fn="delivery_two_apps", cubes={"quick": ["si == 3 and t1 == 3 and t2 == %d and f0 == False" % b for b in (0, 1)],
+    dict(fn="delivery_two_apps", cubes={"quick": ["si == 3 and t1 == 3 and t2 == 0 and f0 == False and %s and p2 - p1 <= 14" % r for r in ("p1 <= 8", "8 < p1 <= 16", "16 < p1 <= 24", "24 < p1 <= 32")],
                                         "thorough": ["si == %d and t1 == %d and t2 == %d and f0 == False" % (s, a, b) for s in (0, 3) for a in (0, 3) for b in range(4)]},
-         twins=["reach", "mutant:flush_keeps_open@si == 3 and t1 == 3 and t2 == 0 and f0 == False"], timeout={"quick": 240, "thorough": 900},
+         twins=["reach@si == 3 and t1 == 3 and t2 == 0 and f0 == False and p1 <= 8 and p2 - p1 <= 14", "mutant:flush_keeps_open@si == 3 and t1 == 3 and t2 == 0 and f0 == False and 16 < p1 <= 24 and p2 - p1 <= 14"], timeout={"quick": 240, "thorough": 900},
          bounds="application thread (push, flush) + a second application thread pushing once + 2 workers; two pre-emptions at symbolic steps "
-                "(quick: the first one to the second application thread)"),
+                "(quick: the first one, at step <= 32, to the second application thread, the second one at most 14 steps later back to the first)"),
     dict(fn="delivery2", cubes={"quick": [], "thorough": ["si == %d and t1 == %d and t2 == %d and f0 == False and f1 == %s and s0 == 0 and s1 == 0 and k1 == 0 and p1 <= 40 and p2 <= 50" % (s, a, b, g)
                                              for s in (0, 3) for a in (1, 2) for b in (0, 1) for g in ("True", "False")]},
          twins=[], timeout={"quick": 240, "thorough": 900}, bounds="thorough only: two pre-emptions at symbolic step indexes (first <= 40, second <= 50)"),
